@@ -65,6 +65,12 @@ func T3Base64Cap(p *AsmProg) func(x *Exec) {
 					}
 					n := x.asmTerm(st.R["DX"])
 					x.assume(s.Eq(b64len, n))
+					if mj, ok := p.Consts["MODE_JSON"]; ok {
+						// the text comes from a JSON string: escapes inside it (\/ \n \u00XX) are
+						// resolved by the decoder only in JSON mode, whatever the CPU level (C13)
+						mode := x.asmTerm(st.R["CX"])
+						x.check(s.Ne(s.And(mode, x.c64(mj)), x.c64(0)), "assert", "base64 decoder is called without JSON mode: escaped base64 text is rejected (on this CPU level only)")
+					}
 					buf, ok := x.loadLeafP(out, 0, 8, lkUintptr).(Ptr)
 					if !ok || buf.Obj == nil {
 						x.check(s.False, "assert", "base64 decoder is handed a non-pointer output buffer")
